@@ -28,6 +28,7 @@ extern "C" {
 
 typedef std::vector<uint8_t> Bytes;
 
+extern "C" void verif_appBitsCpy(uint8_t* Dest, int32_t DestBit, const uint8_t* Src, int32_t SrcBit, int32_t BitCount);
 static uint64_t fnv64(const uint8_t* p, size_t n)
 {
 	uint64_t h = 1469598103934665603ULL;
@@ -1298,6 +1299,160 @@ int main(int argc, char** argv)
 					emit("bb ok %zu %u %zu", used, (unsigned)got, rd.num - offset);
 			}
 			free(buf);
+		}
+		else if (op == "bbs") // bbs <cap> <tok>...: a script of byte-level bit-buffer calls on one buffer (see lean/Utcp/ByteScript.lean); every array is an
+							  // exact-size heap block, so that a byte touched outside it is an AddressSanitizer report
+		{
+			unsigned long cap;
+			is >> cap;
+			cap %= 4096;
+			uint8_t* buf = (uint8_t*)malloc(cap ? cap : 1);
+			struct bitbuf bb;
+			bitbuf_write_init(&bb, buf, cap);
+			uint8_t* rdcopy = nullptr;
+			bool reading = false, dead = false;
+			std::string line = "bbs";
+			char tmp[256];
+			auto pbytes = [](unsigned long pseed, size_t n) {
+				uint8_t* p = (uint8_t*)malloc(n ? n : 1);
+				for (size_t i = 0; i < n; ++i)
+					p[i] = (uint8_t)((((pseed * 1103515245UL + 12345UL + i * 2654435761UL) & 0xFFFFFFFFUL) >> 16) & 0xFF);
+				return p;
+			};
+			std::string tok;
+			while (!dead && (is >> tok))
+			{
+				std::vector<unsigned long> a;
+				std::string k;
+				{
+					size_t pos = tok.find(':');
+					k = tok.substr(0, pos);
+					while (pos != std::string::npos)
+					{
+						size_t nx = tok.find(':', pos + 1);
+						a.push_back(strtoul(tok.substr(pos + 1, nx == std::string::npos ? nx : nx - pos - 1).c_str(), nullptr, 10));
+						pos = nx;
+					}
+					while (a.size() < 4)
+						a.push_back(0);
+				}
+				if (k == "cp")
+				{
+					size_t dn = (a[0] + a[2] + 7) / 8, sn = (a[1] + a[2] + 7) / 8;
+					uint8_t* dest = pbytes(a[3] + 1, dn);
+					uint8_t* src = pbytes(a[3], sn);
+					uint8_t* dexact = (uint8_t*)malloc(dn ? dn : 1); // exactly the bytes the two bit ranges occupy
+					uint8_t* sexact = (uint8_t*)malloc(sn ? sn : 1);
+					memcpy(dexact, dest, dn);
+					memcpy(sexact, src, sn);
+					verif_appBitsCpy(dexact, (int32_t)a[0], sexact, (int32_t)a[1], (int32_t)a[2]);
+					snprintf(tmp, sizeof(tmp), " cp:%016llx", (unsigned long long)fnv64(dexact, dn));
+					line += tmp;
+					free(dest);
+					free(src);
+					free(dexact);
+					free(sexact);
+				}
+				else if (!reading)
+				{
+					bool ok = false;
+					bool known = true;
+					if (k == "wb")
+						ok = bitbuf_write_bit(&bb, (uint8_t)a[0]);
+					else if (k == "ws")
+					{
+						uint8_t* src = pbytes(a[1], (a[0] + 7) / 8);
+						ok = bitbuf_write_bits(&bb, src, a[0]);
+						free(src);
+					}
+					else if (k == "wy")
+					{
+						uint8_t* src = pbytes(a[1], a[0]);
+						ok = bitbuf_write_bytes(&bb, src, a[0]);
+						free(src);
+					}
+					else if (k == "wi")
+						ok = bitbuf_write_int(&bb, (uint32_t)a[0], (uint32_t)a[1]);
+					else if (k == "ww")
+						ok = bitbuf_write_int_wrapped(&bb, (uint32_t)a[0], (uint32_t)a[1]);
+					else if (k == "wp")
+						ok = bitbuf_write_int_packed(&bb, (uint32_t)a[0]);
+					else if (k == "wu")
+						ok = bitbuf_write_int_byte_order(&bb, (uint32_t)a[0]);
+					else if (k == "end")
+					{
+						if (!bitbuf_write_end(&bb))
+						{
+							line += " endfail";
+							dead = true;
+						}
+						else
+						{
+							size_t len = (bb.num + 7) / 8;
+							rdcopy = (uint8_t*)malloc(len ? len : 1);
+							memcpy(rdcopy, buf, len);
+							struct bitbuf rb;
+							rb.buffer = nullptr;
+							rb.size = 0;
+							rb.num = 0;
+							bool okr = bitbuf_read_init(&rb, rdcopy, len);
+							std::string h;
+							char t[4];
+							for (size_t i = 0; i < len; ++i)
+							{
+								snprintf(t, sizeof(t), "%02x", rdcopy[i]);
+								h += t;
+							}
+							snprintf(tmp, sizeof(tmp), " end:%d:%zu:", okr ? 1 : 0, okr ? rb.size : (size_t)0);
+							line += tmp;
+							line += h;
+							bb = rb;
+							reading = true;
+							if (!okr)
+								dead = true;
+						}
+						continue;
+					}
+					else
+						known = false;
+					if (!known)
+						line += " badtok";
+					else
+					{
+						snprintf(tmp, sizeof(tmp), " %d:%zu", ok ? 1 : 0, bb.num);
+						line += tmp;
+					}
+				}
+				else
+				{
+					if (k == "rb" || k == "ri" || k == "rp" || k == "ru")
+					{
+						uint32_t v = 0;
+						uint8_t bit = 0;
+						bool ok = k == "rb" ? bitbuf_read_bit(&bb, &bit) : k == "ri" ? bitbuf_read_int(&bb, &v, (uint32_t)a[0]) : k == "rp" ? bitbuf_read_int_packed(&bb, &v) : bitbuf_read_int_byte_order(&bb, &v);
+						if (k == "rb")
+							v = bit;
+						snprintf(tmp, sizeof(tmp), " %d:%u:%zu", ok ? 1 : 0, ok ? (unsigned)v : 0u, bb.num);
+						line += tmp;
+					}
+					else if (k == "rs" || k == "ry")
+					{
+						size_t n = k == "rs" ? (a[0] + 7) / 8 : a[0];
+						uint8_t* out = (uint8_t*)malloc(n ? n : 1);
+						memset(out, 0xAA, n ? n : 1);
+						bool ok = k == "rs" ? bitbuf_read_bits(&bb, out, a[0]) : bitbuf_read_bytes(&bb, out, a[0]);
+						snprintf(tmp, sizeof(tmp), " %d:%016llx:%zu", ok ? 1 : 0, (unsigned long long)fnv64(out, n), bb.num);
+						line += tmp;
+						free(out);
+					}
+					else
+						line += " badtok";
+				}
+			}
+			g_out += line;
+			g_out += '\n';
+			free(buf);
+			free(rdcopy);
 		}
 		else if (op == "bbcut") // bbcut <kind 0 int|1 wrapped|2 packed> <v> <max> <offset> <cut>: write the value at a bit offset, then READ it back from a
 								// buffer that is <cut> bits too short: the read must fail (or succeed early) with the cursor still inside the valid range
